@@ -1,18 +1,25 @@
 """C16 - variational particles are the derivatives of the trajectory.
 
 Sub-checks
-  ctor     every reb_particle_derivative_* constructor (12 first order, 53 second order) against 4th-order
-           central finite differences of REBOUND's own element->Cartesian map (reb_particle_from_orbit /
-           reb_particle_from_pal), evaluated at the elements the constructor itself recovers from its
-           Cartesian argument.  Error bound of the difference quotient: |D(h)-D(2h)| (truncation, Richardson)
-           plus K*eps*|map|/(h (1-e)) (round-off of the stencil).
-  evolve   first/second order variational particles after integration (IAS15, BS: orders 1 and 2; WHFast and
-           LEAPFROG: order 1, tangent map of the discrete map) against 4th-order central differences of shadow
-           simulations started at parameter +-h, +-2h (and +-4h for the error estimate).
+  ctor     every reb_particle_derivative_* constructor (12 first order, 53 second order, enumerated) against
+           4th-order central finite differences of REBOUND's own element->Cartesian map
+           (reb_particle_from_orbit / reb_particle_from_pal), evaluated at the elements the constructor itself
+           recovers from its Cartesian argument.  Error bound of the difference quotient:
+           |D(h)-D(2h)| (truncation, Richardson: 15x the truncation error of D(h)) + 64*w*eps*|map|/(h (1-e))
+           (round-off of the stencil; w = sum of |stencil weights|).
+  evolve   first/second order variational particles after integration (IAS15, BS: orders 1 and 2, also
+           test-particle variations; WHFast (safe_mode 0/1, correctors 0/3/11) and LEAPFROG: order 1, exact
+           tangent map of the discrete map) against 4th-order central differences of shadow simulations at
+           parameter +-h, +-2h (and +-4h for the error estimate).
            order 1: differences of real trajectories; order 2: differences of the first-order variation.
-  rescale  a first-order variation started at amplitude 10^x (x in [97,99.9]) so that the 1e100 rescale fires,
-           against the same variation at amplitude 1 with rescaling disabled (lrescale=-1).
-  megno    MEGNO -> 2, Lyapunov -> 0 on regular two-planet systems (WHFast, IAS15), lenient bounds.
+           IAS15/BS cases use IAS15 shadows (true flow), WHFast/LEAPFROG the same map with the same dt.
+  rescale  a first-order variation whose largest initial coordinate is 10^x (x in [99.3,99.97]) so that the
+           1e100 rescale fires, against the same variation at amplitude 1 with rescaling disabled
+           (lrescale=-1): coordinates * exp(lrescale) / amplitude must agree to 2^17 eps (IAS15, WHFast, LEAPFROG).
+  megno    MEGNO -> 2, Lyapunov -> 0 on regular low-e two-planet systems (WHFast, IAS15), lenient bounds.
+
+Known findings (keys; see the report): C16-whfast-mass-variation (open, WHFast tangent map has no mass terms),
+C16-pal-kepler-newton, C16-rescale-ias15-state, C16-rescale-mass-variation (fix patches in proposed_fixes/).
 """
 import math
 
@@ -74,15 +81,18 @@ def all_ctors():
 CTORS = all_ctors()
 assert len(CTORS) == 65, len(CTORS)
 
-RULE = ("ctor: Hypothesis-drawn bound orbits (e in [0,0.9], inc in [0,2.5], any angles, mass ratio 1e-9..0.5, "
-        "5 values of G, displaced moving primary); every case evaluates all 65 reb_particle_derivative_* "
-        "constructors (the 30 of the classical set only if e>=0.01) against finite differences of REBOUND's "
-        "own element->Cartesian map.  evolve: Hypothesis-drawn star+1..3 planet systems, integrator, order, "
-        "parameter (pair), varied particle, test-particle flag, horizon; variational state vs 4th-order "
-        "central differences of shadow simulations.  rescale: amplitude 10^x variation vs amplitude 1.  "
-        "Non-trivial = the parameter is an orbital element or an element-fixed mass (not a bare Cartesian "
-        "coordinate), or the variation is second order, or it is a test-particle variation; every ctor case is "
-        "non-trivial; distinct by case hash.")
+RULE = ("ctor: Hypothesis-drawn bound orbits (e in [0,0.9], inc in [0,2.5], any angles incl. 0/pi/2/pi, mass ratio "
+        "0 or 1e-9..0.5, 5 values of G, displaced moving primary); every case evaluates all 65 "
+        "reb_particle_derivative_* constructors (the 30 of the classical set only if e>=0.01) against finite "
+        "differences of REBOUND's own element->Cartesian map.  evolve: Hypothesis-drawn star + 1..3 planet systems "
+        "(mass ratios 1e-6..5e-3, e<=0.25 (<=0.8 for one planet), a-ratios 1.9..2.6, 1/8 planar and/or circular), "
+        "integrator (ias15/bs/whfast/leapfrog + options), order, parameter or pair (x..vz, Cartesian mass, "
+        "element-fixed mass, a, e, inc, Omega, omega, f, lambda, h, k, ix, iy), varied particle(s) incl. the star, "
+        "test-particle flag, N_active, horizon 0.3-3 orbits (thorough: up to 30); variational state vs 4th-order "
+        "central differences of shadow simulations.  rescale: amplitude ~1e99.x variation vs amplitude 1.  megno: "
+        "1500 (thorough 4000) orbits.  Non-trivial = the parameter is an orbital element or a mass (not a bare "
+        "Cartesian coordinate), or the variation is second order, or it is a test-particle variation; every ctor "
+        "case and every rescale case in which the rescale fired is non-trivial; distinct by case hash.")
 ASSUMPTIONS = [
     "REBOUND's own element->Cartesian maps (reb_particle_from_orbit, reb_particle_from_pal) and its inverse "
     "are the maps the constructors are derivatives of (their correctness is C11)",
@@ -257,10 +267,10 @@ STEP1, STEP2 = 2e-3, 4e-3
 
 
 def pal_solver_finding(ctx, e):
-    """Known finding 'pal-kepler-newton' (while open): reb_tools_solve_kepler_pal is inaccurate for 0.15<=e<0.3,
+    """Known finding 'C16-pal-kepler-newton' (while open): reb_tools_solve_kepler_pal is inaccurate for 0.15<=e<0.3,
     which makes reb_particle_from_pal and the Pal constructors wrong at the 1e-13..1e-4 level."""
-    if 0.15 <= e < 0.3 and ctx.finding_open("pal-kepler-newton"):
-        ctx.excluded("pal-kepler-newton")
+    if 0.15 <= e < 0.3 and ctx.finding_open("C16-pal-kepler-newton"):
+        ctx.excluded("C16-pal-kepler-newton")
         return True
     return False
 
@@ -633,6 +643,7 @@ DELTA_SHADOW = 3e-14      # accuracy of one shadow state per orbit, relative to 
 K_RND_EV = 16.0
 DELTA_VAR = 2e-13         # accuracy of a first-order IAS15 variation (shadow of the order-2 check), measured <= 3.6e-11 at 30 orbits
 K_BASE = 64.0
+K_INV = 128.0          # slack on the inverse-map noise of the order-2 shadows (measured worst: 12)
 
 
 def run_evolve(case, ctx):
@@ -650,8 +661,8 @@ def run_evolve(case, ctx):
 
     # known limitation probe: WHFast's tangent map has no mass terms
     if integ == "whfast" and kind_of(p) == "mass":
-        if ctx.finding_open("whfast-mass-variation"):
-            ctx.excluded("whfast-mass-variation")
+        if ctx.finding_open("C16-whfast-mass-variation"):
+            ctx.excluded("C16-whfast-mass-variation")
             return
 
     # element family per varied particle
@@ -761,9 +772,10 @@ def run_evolve(case, ctx):
         kint = (2e3 * case["bs_eps"] + 3e-9) * (1.0 + norb)
     else:
         kint = K_INT[integ] * (1.0 + norb)
+    dinv = 0.0
     if order == 2:
         # each shadow initialises its first-order variation from elements recovered with that accuracy
-        delta += max(dbase, dsh[0]) * wind * state_mag
+        dinv = max(dbase, dsh[0]) * wind * state_mag
         ctx.stat_max("delta_shadow", dsh[0])
     # regime guard: the difference quotient is meaningful only while the shadows stay in the linear neighbourhood
     # of the base trajectory (a chaotic / numerically unstable base, e.g. LEAPFROG through a deep pericentre, is
@@ -786,10 +798,11 @@ def run_evolve(case, ctx):
     else:
         Rn = max(R, snorm(V1, base) * snorm(V1b, base))
     base_term = K_BASE * dbase * wind * Rn
-    tol = Efd + K_RND_EV * 1.5 * delta / h + kint * Rn + base_term
+    rnd_term = (K_RND_EV * 1.5 * delta + K_INV * dinv) / h
+    tol = Efd + rnd_term + kint * Rn + base_term
     ratio = err / tol if tol > 0 else 0.0
     if hasattr(ctx, "trace"):     # development aid (tools only; the runner's Ctx has no such attribute)
-        ctx.trace.append({"integ": integ, "order": order, "err": err, "Efd": Efd, "rnd": K_RND_EV * 1.5 * delta / h,
+        ctx.trace.append({"integ": integ, "order": order, "err": err, "Efd": Efd, "rnd": rnd_term,
                           "int": kint * Rn, "base": base_term, "R": R, "norb": norb, "p": p,
                           "q": case.get("q"), "tp": tp})
     ctx.stat_max("err/tol[%s,o%d]" % (integ, order), ratio)
@@ -847,7 +860,7 @@ def rescale_case(draw):
     return case
 
 
-K_RESCALE = 2.0 ** 15      # measured: error <= 1.1e3 eps |variation| (round-off of two differently scaled runs)
+K_RESCALE = 2.0 ** 17      # measured: error <= 8.2e3 eps |variation| (LEAPFROG, 1600 steps) (round-off of two differently scaled runs)
 
 
 def run_rescale(case, ctx):
@@ -859,14 +872,14 @@ def run_rescale(case, ctx):
     nreal = base.n
     mass_var = kind_of(p) == "mass"
     if mass_var and integ == "whfast":
-        if ctx.finding_open("whfast-mass-variation"):
-            ctx.excluded("whfast-mass-variation")
+        if ctx.finding_open("C16-whfast-mass-variation"):
+            ctx.excluded("C16-whfast-mass-variation")
             return
-    if mass_var and ctx.finding_open("rescale-mass-variation"):
-        ctx.excluded("rescale-mass-variation")
+    if mass_var and ctx.finding_open("C16-rescale-mass-variation"):
+        ctx.excluded("C16-rescale-mass-variation")
         return
-    if integ == "ias15" and ctx.finding_open("rescale-ias15-state"):
-        ctx.excluded("rescale-ias15-state")
+    if integ == "ias15" and ctx.finding_open("C16-rescale-ias15-state"):
+        ctx.excluded("C16-rescale-ias15-state")
         return
     if j > 0 and p not in CART and p != "mc" and family_of(p) == "pal":
         if pal_solver_finding(ctx, case["system"]["planets"][j - 1]["e"]):
@@ -985,11 +998,11 @@ def run_megno(case, ctx):
 
 def subs(tier):
     return [
-        Sub("ctor", run_ctor, strategy=orbit_case, quick=2400, thorough=60000, shards_quick=8, shards_thorough=16),
-        Sub("evolve", run_evolve, strategy=evolve_case(tier), quick=8000, thorough=64000, shards_quick=16,
+        Sub("ctor", run_ctor, strategy=orbit_case, quick=2400, thorough=100000, shards_quick=8, shards_thorough=16),
+        Sub("evolve", run_evolve, strategy=evolve_case(tier), quick=8000, thorough=160000, shards_quick=16,
             shards_thorough=16),
-        Sub("rescale", run_rescale, strategy=rescale_case(), quick=800, thorough=12000, shards_quick=4,
+        Sub("rescale", run_rescale, strategy=rescale_case(), quick=800, thorough=20000, shards_quick=4,
             shards_thorough=8),
-        Sub("megno", run_megno, strategy=megno_case(tier), quick=32, thorough=480, shards_quick=4,
+        Sub("megno", run_megno, strategy=megno_case(tier), quick=32, thorough=960, shards_quick=4,
             shards_thorough=16),
     ]
